@@ -58,6 +58,9 @@ NextModel(a, op, x, m) ==
        \* sync::Arena has no truncate: the harness only gave up the handles
        [m EXCEPT !.st = [m.st EXCEPT !.live = [z \in {} |-> 0], !.refs = 1,
                                      !.leaked = m.st.leaked \cup {AsLeak(m.st.live[h]) : h \in DOMAIN m.st.live}]]
+  \* the implementation-level model covers shared writable sessions; private / read-only sessions are judged at the
+  \* property level only (TraceSeqProp)
+  ELSE IF op.k = "reopen" /\ (op.variant # "map_mut" \/ x.res.k # "ok") THEN Off
   ELSE IF ~Enabled(m.st, op) THEN (IF Drift(a, "handle-unknown-to-model") THEN Off ELSE Off)
   ELSE
   LET r == Step(m.st, op, FixedRewind)
